@@ -135,6 +135,15 @@ func filterColumns(row *ovsdb.Row, columns map[string]bool) *ovsdb.Row {
 	return &new
 }
 
+// selectFor returns what the monitor selected for a table; a request without
+// a "select" member selects everything
+func (m *monitor) selectFor(table string) *ovsdb.MonitorSelect {
+	if request := m.request[table]; request != nil && request.Select != nil {
+		return request.Select
+	}
+	return ovsdb.NewDefaultMonitorSelect()
+}
+
 func (m *monitor) filter(update database.Update) ovsdb.TableUpdates {
 	// remove updates for tables that we aren't watching
 	tables := update.GetUpdatedTables()
@@ -155,11 +164,11 @@ func (m *monitor) filter(update database.Update) ovsdb.TableUpdates {
 			ru := &ovsdb.RowUpdate{}
 			ru.FromRowUpdate2(ru2)
 			switch {
-			case ru.Insert() && m.request[table].Select.Insert():
+			case ru.Insert() && m.selectFor(table).Insert():
 				fallthrough
-			case ru.Modify() && m.request[table].Select.Modify():
+			case ru.Modify() && m.selectFor(table).Modify():
 				fallthrough
-			case ru.Delete() && m.request[table].Select.Delete():
+			case ru.Delete() && m.selectFor(table).Delete():
 				if len(cols) == 0 {
 					return nil
 				}
@@ -192,11 +201,11 @@ func (m *monitor) filter2(update database.Update) ovsdb.TableUpdates2 {
 		}
 		_ = update.ForEachRowUpdate(table, func(uuid string, ru2 ovsdb.RowUpdate2) error {
 			switch {
-			case ru2.Insert != nil && m.request[table].Select.Insert():
+			case ru2.Insert != nil && m.selectFor(table).Insert():
 				fallthrough
-			case ru2.Modify != nil && m.request[table].Select.Modify():
+			case ru2.Modify != nil && m.selectFor(table).Modify():
 				fallthrough
-			case ru2.Delete != nil && m.request[table].Select.Delete():
+			case ru2.Delete != nil && m.selectFor(table).Delete():
 				if len(cols) == 0 {
 					return nil
 				}
